@@ -16,12 +16,12 @@ Definition onebyte_unmarshal (buf : list Z) : res (list Z) :=
   end.
 Definition twobyte_unmarshal (buf : list Z) : res (list Z) :=
   match view_profile buf with
-  | Ok p => if p =? profile_two_byte then Ok buf else Err ENotFound
+  | Ok p => if ext_form p =? profile_two_byte then Ok buf else Err ENotFound
   | Err e => Err e | Panic => Panic
   end.
 Definition raw_unmarshal (buf : list Z) : res (list Z) :=
   match view_profile buf with
-  | Ok p => if (p =? profile_one_byte) || (p =? profile_two_byte) then Err ENotFound else Ok buf
+  | Ok p => if (p =? profile_one_byte) || (ext_form p =? profile_two_byte) then Err ENotFound else Ok buf
   | Err e => Err e | Panic => Panic
   end.
 
